@@ -7,6 +7,7 @@ import (
 
 // resetAll restores the package-level state of the library and of the shims before an execution.
 func resetAll() {
+	log.VerifResetGlobals() // generated: every package-level variable back to its value before the first execution
 	log.VerifReset()
 	vos.StderrBuf = vos.StderrBuf[:0]
 	vos.StdoutBuf = vos.StdoutBuf[:0]
